@@ -2,6 +2,8 @@ package main
 
 import (
 	"fmt"
+	"regexp"
+	"sync"
 	"go/types"
 	"math"
 	"strings"
@@ -917,6 +919,40 @@ func (m *Machine) lookupMethod(t types.Type, name string) *ssa.Function {
 var fnIntrinsics = map[string]func(fn *ssa.Function) intrinsic{}
 
 func init() {
+	// strings.ToLower / ToUpper on strings whose bytes are all provably ASCII: bytewise ite, no forks.
+	caseMap := func(lower bool) func(fn *ssa.Function) intrinsic {
+		return func(fn *ssa.Function) intrinsic {
+			return func(m *Machine, caller *frame, a []Value) Value {
+				s := a[0].(*Str)
+				if s.IsConc() {
+					if lower {
+						return m.str(strings.ToLower(s.s))
+					}
+					return m.str(strings.ToUpper(s.s))
+				}
+				out := make([]*Term, len(s.sym))
+				for i, c := range s.sym {
+					ascii := m.f.Cmp(OUlt, c, m.f.Const(8, 0x80))
+					if !ascii.IsTrue() {
+						if v, ok := m.decideByMask(ascii); !ok || !v {
+							return m.execSSA(caller, fn, a, nil) // possibly non-ASCII: the real code decides
+						}
+					}
+					if lower {
+						up := m.f.And(m.f.Cmp(OUle, m.f.Const(8, 'A'), c), m.f.Cmp(OUle, c, m.f.Const(8, 'Z')))
+						out[i] = m.f.Ite(up, m.f.Bin(OAdd, c, m.f.Const(8, 32)), c)
+					} else {
+						lo := m.f.And(m.f.Cmp(OUle, m.f.Const(8, 'a'), c), m.f.Cmp(OUle, c, m.f.Const(8, 'z')))
+						out[i] = m.f.Ite(lo, m.f.Bin(OSub, c, m.f.Const(8, 32)), c)
+					}
+				}
+				return m.mkStr(out)
+			}
+		}
+	}
+	fnIntrinsics["strings.ToLower"] = caseMap(true)
+	fnIntrinsics["strings.ToUpper"] = caseMap(false)
+
 	// net.ResolveXAddr(network, address): synthetic address object; Zone carries the address text.
 	resolve := func(fn *ssa.Function) intrinsic {
 		pt := fn.Signature.Results().At(0).Type()
@@ -940,4 +976,106 @@ func init() {
 	fnIntrinsics["net.ResolveUDPAddr"] = resolve
 	fnIntrinsics["net.ResolveUnixAddr"] = resolve
 	fnIntrinsics["net.ResolveIPAddr"] = resolve
+}
+
+// ---- regexp: native on concrete subjects; hand models for the two patterns socketace applies to symbolic data ----
+
+func init() {
+	exprOf := func(v Value) string {
+		p, ok := v.(*Value)
+		if !ok || p == nil {
+			return ""
+		}
+		st, ok := (*p).(Struct)
+		if !ok {
+			return ""
+		}
+		s, ok := st[0].(*Str)
+		if !ok || !s.IsConc() {
+			return ""
+		}
+		return s.s
+	}
+	fnIntrinsics["(*regexp.Regexp).MatchString"] = func(fn *ssa.Function) intrinsic {
+		return func(m *Machine, caller *frame, a []Value) Value {
+			expr := exprOf(a[0])
+			s := a[1].(*Str)
+			if expr != "" && s.IsConc() {
+				if re, err := regexpCompile(expr); err == nil {
+					return m.f.Bool(re.MatchString(s.s))
+				}
+			}
+			if expr == "^[0-9]{3}" { // commands.Digits
+				if s.Len() < 3 {
+					return m.f.fls
+				}
+				r := m.f.tru
+				for i := 0; i < 3; i++ {
+					c := m.strAt(s, i)
+					r = m.f.And(r, m.f.And(m.f.Cmp(OUle, m.f.Const(8, '0'), c), m.f.Cmp(OUle, c, m.f.Const(8, '9'))))
+				}
+				return r
+			}
+			return m.execSSA(caller, fn, a, nil)
+		}
+	}
+	fnIntrinsics["(*regexp.Regexp).ReplaceAllString"] = func(fn *ssa.Function) intrinsic {
+		return func(m *Machine, caller *frame, a []Value) Value {
+			expr := exprOf(a[0])
+			s, repl := a[1].(*Str), a[2].(*Str)
+			if expr != "" && s.IsConc() && repl.IsConc() {
+				if re, err := regexpCompile(expr); err == nil {
+					return m.str(re.ReplaceAllString(s.s, repl.s))
+				}
+			}
+			if expr == "\\." && repl.Len() == 0 { // util.DotRegex: remove dots
+				var out []*Term
+				for i := 0; i < s.Len(); i++ {
+					c := m.strAt(s, i)
+					if m.branchT(m.f.Cmp(OEq, c, m.f.Const(8, '.'))) {
+						continue
+					}
+					out = append(out, c)
+				}
+				return m.mkStr(out)
+			}
+			return m.execSSA(caller, fn, a, nil)
+		}
+	}
+	fnIntrinsics["(*regexp.Regexp).Split"] = func(fn *ssa.Function) intrinsic {
+		return func(m *Machine, caller *frame, a []Value) Value {
+			expr := exprOf(a[0])
+			s := a[1].(*Str)
+			n := a[2].(*Term)
+			if expr != "" && s.IsConc() && n.IsConst() {
+				if re, err := regexpCompile(expr); err == nil {
+					parts := re.Split(s.s, int(sext(n.c, n.w)))
+					var out Slice
+					for _, p := range parts {
+						out = append(out, m.str(p))
+					}
+					return out
+				}
+			}
+			return m.execSSA(caller, fn, a, nil)
+		}
+	}
+}
+
+var (
+	reCache   = map[string]*regexp.Regexp{}
+	reCacheMu sync.Mutex
+)
+
+func regexpCompile(expr string) (*regexp.Regexp, error) {
+	reCacheMu.Lock()
+	defer reCacheMu.Unlock()
+	if re, ok := reCache[expr]; ok {
+		return re, nil
+	}
+	re, err := regexp.Compile(expr)
+	if err == nil {
+		reCache[expr] = re
+	}
+	return re, err
 }
